@@ -32,9 +32,14 @@ VARIABLES l,        \* index of the next line to consume
           maxv,     \* node id -> highest view carried by an own top-level payload at the current height
           preOk,    \* node id -> number of successful ProcessPreBlock callbacks at the current height
           txq,      \* node id -> [key, asked, given] : transactions requested / supplied for the stored proposal
-          nviol     \* number of formula failures reported so far
+          nviol,    \* number of formula failures reported so far
+          cfgs,     \* node id -> static configuration (from the Start line)
+          ndiv      \* [checked, diverged, skipped] conformance counters
 
-vars == <<l, run, st, acc, sent, lock, maxv, preOk, txq, nviol>>
+vars == <<l, run, st, acc, sent, lock, maxv, preOk, txq, nviol, cfgs, ndiv>>
+
+\* TRUE: also check every logged call against the transition relation of DbftNode.tla
+CheckConformance == "VERIF_CONFORM" \in DOMAIN IOEnv /\ IOEnv.VERIF_CONFORM = "1"
 
 -----------------------------------------------------------------------------
 \* Vocabulary
@@ -284,6 +289,53 @@ SilentAt(e, j) == ~e.cb[j].at.watch
 PrimaryOK(s) == s.started => s.primary = (s.h - s.v) % s.n /\ s.n = Len(s.vals)
 
 -----------------------------------------------------------------------------
+\* Conformance: the logged step is one of the outcomes the specification allows
+
+Node == INSTANCE DbftNode WITH DevEarlyCommitUnverified <- TRUE, Weaken <- {}
+
+SigSlot(s) == IF s.k = "none" THEN None ELSE [k |-> s.k, v |-> s.v, s |-> s.s, b |-> s.b]
+CacheSet(c) == UNION { {[h |-> x.h, kind |-> "prepare", from |-> p.from, p |-> p] : p \in Range(x.prepare)}
+                       \cup {[h |-> x.h, kind |-> "chViews", from |-> p.from, p |-> p] : p \in Range(x.chViews)}
+                       \cup {[h |-> x.h, kind |-> "preCommit", from |-> p.from, p |-> p] : p \in Range(x.preCommit)}
+                       \cup {[h |-> x.h, kind |-> "commit", from |-> p.from, p |-> p] : p \in Range(x.commit)} : x \in Range(c) }
+CoreFields == {"started", "h", "v", "n", "me", "watch", "primary", "amev", "vals", "prev", "ts", "nonce", "txs", "have", "missing",
+               "prep", "pc", "cm", "cv", "lastcv", "seen", "blockDone", "preDone", "hdr", "preHdr", "blk", "preBlk", "cache",
+               "timer", "sub", "lbTs", "lbTime", "lbIdx", "lbView", "sentAt", "rttAvg", "tpb", "maxTpb"}
+Core(s, cfg) ==
+  IF ~s.started THEN [Node!Blank(cfg) EXCEPT !.timer = IF "timer" \in DOMAIN s THEN s.timer ELSE @]
+  ELSE [f \in CoreFields |->
+          CASE f = "have" -> Range(s.have)
+            [] f = "pc" -> [i \in 1..Len(s.pc) |-> SigSlot(s.pc[i])]
+            [] f = "cm" -> [i \in 1..Len(s.cm) |-> SigSlot(s.cm[i])]
+            [] f = "cache" -> CacheSet(s.cache)
+            [] OTHER -> s[f]]
+       @@ [out |-> <<>>, fp |-> 0, fb |-> 0, rec |-> FALSE, cfg |-> cfg, env |-> [now |-> 0]]
+ViewOf(x) == [f \in CoreFields |-> x[f]]
+EffectKinds == {"Broadcast", "TimerReset", "TimerExtend", "ProcessBlock", "ProcessPreBlock", "RequestTx", "SubscribeForTxs", "StopTxFlow"}
+EffectOf(c) == CASE c.k = "Broadcast" -> [k |-> c.k, m |-> c.m]
+                 [] c.k = "TimerReset" -> [k |-> c.k, h |-> c.h, v |-> c.v, d |-> c.d]
+                 [] c.k = "TimerExtend" -> [k |-> c.k, d |-> c.d]
+                 [] c.k \in {"ProcessBlock", "ProcessPreBlock"} -> [k |-> c.k, block |-> c.block, ok |-> c.ok]
+                 [] c.k = "RequestTx" -> [k |-> c.k, hashes |-> c.hashes]
+                 [] OTHER -> [k |-> c.k]
+EffectsSeq(e) == LET sel == SelectSeq(e.cb, LAMBDA c : c.k \in EffectKinds) IN [i \in 1..Len(sel) |-> EffectOf(sel[i])]
+EnvOf(e) ==
+  [now |-> e.now, ledger |-> e.ledger, known |-> Range(e.app.known), pool |-> e.app.pool, bad |-> Range(e.app.bad),
+   failPre |-> e.app.failPre, failBlock |-> e.app.failBlock, nilBlock |-> e.app.nilBlock,
+   rejects |-> {e.cb[j].m : j \in {k \in 1..Len(e.cb) : e.cb[k].k \in {"VerifyPrepareRequest", "VerifyPrepareResponse", "VerifyCommit", "VerifyPreCommit"} /\ ~e.cb[k].ok}},
+   nonce |-> (LET js == Cbs(e, "NewPrepareRequest") IN IF js = {} THEN "0" ELSE e.cb[CHOOSE j \in js : \A k \in js : j <= k].block.nonce),
+   rttAvg |-> e.post.rttAvg,
+   rmOrder |-> [w \in {e.cb[j].which : j \in Cbs(e, "RMOrder")} |-> e.cb[CHOOSE j \in Cbs(e, "RMOrder") : e.cb[j].which = w].perm]]
+\* replay of cached payloads is explored in every order: skip the (rare) calls where that is too many
+TooManyOrders(pre, e) ==
+  /\ pre.started
+  /\ \E x \in Range(pre.cache) : Len(x.prepare) > 4 \/ Len(x.chViews) > 4 \/ Len(x.preCommit) > 4 \/ Len(x.commit) > 4
+Conforms(e, pre, cfg) ==
+  LET outs == Node!Api(Core(pre, cfg), e.call, e.arg, EnvOf(e))
+      want == [s |-> ViewOf(Core(e.post, cfg)), out |-> EffectsSeq(e)]
+  IN \E o \in outs : [s |-> ViewOf(o), out |-> o.out] = want
+
+-----------------------------------------------------------------------------
 \* The set of failed formulas of one step: <<property, formula, known-finding tag>>
 
 StepViolations(e, pre) ==
@@ -362,6 +414,8 @@ NextPreOk(e, pre) == (IF NewHeight(e, pre) THEN 0 ELSE preOk[e.n]) + Cardinality
 -----------------------------------------------------------------------------
 Init == /\ l = 1 /\ run = [call |-> "none"] /\ st = <<>> /\ acc = <<>> /\ sent = <<>> /\ lock = <<>>
         /\ maxv = <<>> /\ preOk = <<>> /\ txq = <<>> /\ nviol = 0
+        /\ cfgs = <<>> /\ ndiv = [checked |-> 0, diverged |-> 0, skipped |-> 0]
+        /\ TLCSet(1, ndiv)
 
 StartRun ==
   /\ l <= Len(TLog) /\ IsRunStart(TLog[l])
@@ -374,16 +428,37 @@ StartRun ==
        /\ maxv' = [n \in ns |-> 0]
        /\ preOk' = [n \in ns |-> 0]
        /\ txq' = [n \in ns |-> [key |-> NoKey, asked |-> {}, given |-> {}]]
-  /\ l' = l + 1 /\ UNCHANGED nviol
+       /\ cfgs' = [n \in ns |-> [tpb |-> 0, maxTpb |-> 0, inc |-> 1, amevH |-> -1, watch |-> FALSE]]
+  /\ l' = l + 1 /\ UNCHANGED <<nviol, ndiv>>
 
 Report(e, x) == PrintT(<<"VIOL", x[1], x[2], x[3], run.run, e.i, e.n, e.call>>)
+Diverge(e) == PrintT(<<"DIVERGE", run.run, e.i, e.n, e.call, IF e.call = "OnReceive" THEN e.arg.t ELSE "">>)
+\* debugging aid (VERIF_CONFORM_DEBUG=1): which fields differ from each model outcome
+DebugOn == "VERIF_CONFORM_DEBUG" \in DOMAIN IOEnv
+DivergeDetail(e, pre, cfg) ==
+  LET outs == Node!Api(Core(pre, cfg), e.call, e.arg, EnvOf(e))
+      want == ViewOf(Core(e.post, cfg))
+  IN \A o \in outs :
+       LET df == {f \in CoreFields : ViewOf(o)[f] # want[f]} IN
+         PrintT(<<"DIFF", e.i, df, [f \in df |-> <<"model", ViewOf(o)[f], "real", want[f]>>],
+                  IF o.out = EffectsSeq(e) THEN "out-equal" ELSE <<"model-out", o.out, "real-out", EffectsSeq(e)>>>>)
 
 Step ==
   /\ l <= Len(TLog) /\ ~IsRunStart(TLog[l])
   /\ LET e == TLog[l]
          pre == IF e.fresh THEN NotStarted ELSE st[e.n]
          V == StepViolations(e, pre)
+         cfg == IF "cfg" \in DOMAIN e THEN e.cfg ELSE cfgs[e.n]
+         conf == IF ~CheckConformance \/ e.panic # "" THEN "off"
+                 ELSE IF TooManyOrders(pre, e) THEN "skipped"
+                 ELSE IF Conforms(e, pre, cfg) THEN "ok" ELSE "diverged"
      IN /\ \A x \in V : Report(e, x)
+        /\ conf = "diverged" => Diverge(e) /\ (DebugOn => DivergeDetail(e, pre, cfg))
+        /\ ndiv' = [checked |-> ndiv.checked + (IF conf \in {"ok", "diverged"} THEN 1 ELSE 0),
+                    diverged |-> ndiv.diverged + (IF conf = "diverged" THEN 1 ELSE 0),
+                    skipped |-> ndiv.skipped + (IF conf = "skipped" THEN 1 ELSE 0)]
+        /\ cfgs' = [cfgs EXCEPT ![e.n] = cfg]
+        /\ TLCSet(1, ndiv')
         /\ nviol' = nviol + Cardinality(V)
         /\ st' = [st EXCEPT ![e.n] = e.post]
         /\ acc' = [acc EXCEPT ![e.n] = NextAcc(e)]
@@ -402,5 +477,6 @@ Spec == Init /\ [][Next]_vars
 \* the whole file was consumed (checked when TLC has finished)
 Consumed == TLCGet("stats").diameter = Len(TLog) + 1
 Summary == PrintT(<<"TRACE-SUMMARY", Len(TLog), TLCGet("stats").diameter>>)
-Post == Summary /\ Consumed
+ConfSummary == PrintT(<<"CONFORMANCE", TLCGet(1)>>)
+Post == Summary /\ ConfSummary /\ Consumed
 =============================================================================
